@@ -47,6 +47,21 @@ func TestC07(t *testing.T) {
 			}
 		}
 	}
+	// per-envelope write fault on the teardown path: exactly the RST_STREAM Write fails (quick: every other prefix)
+	for ti, bt := range c07BaseTraces() {
+		n := len(bt.Steps(0))
+		for p := 0; p <= n; p++ {
+			for v := 0; v < 6; v++ {
+				if !thorough() && (v/2 != (ti+p+v)%3 || (ti+p)%2 == 1 || v%2 != (ti+p/2)%2) {
+					continue
+				}
+				if want(idx) {
+					runCwScenario(t, idx, "c07", c07FaultScenario(bt, p, v%2 == 1, v/2), em)
+				}
+				idx++
+			}
+		}
+	}
 	// regression of D-07s with the forced schedule (the select of the loop's Read is random: 40 repetitions)
 	for i := 0; i < 40; i++ {
 		if want(idx) {
